@@ -212,11 +212,19 @@ func initLibSpecs() {
 		return Val{T: c.Signature().Results(), Terms: []string{r, sz}}
 	}}
 	L["(*regexp.Regexp).FindStringSubmatch"] = &libSpec{allocs: true, fn: specFindStringSubmatch}
-	L["(*sync.Mutex).Lock"] = &libSpec{fn: func(s *State, c *ssa.CallCommon, args []Val, where string) Val {
+	L["(*bytes.Buffer).WriteTo"] = &libSpec{ghosts: []string{"$flushes", "$out", "$out_other", "$compout"}, fn: func(s *State, c *ssa.CallCommon, args []Val, where string) Val {
+		s.trust("(*bytes.Buffer).WriteTo(w) issues the buffered bytes to w and empties the buffer; counted as one flush event ($flushes) when that ghost is declared")
+		if _, ok := s.eng.ghostDecls["$flushes"]; ok {
+			cur := s.ghostGet("$flushes", tInt)
+			s.ghost["$flushes"] = mkInt(app("+", cur.Terms[0], "1"))
+		}
+		return s.freshResult(c, "writeto")
+	}}
+	L["(*sync.Mutex).Lock"] = &libSpec{ghosts: []string{"$mutexes"}, fn: func(s *State, c *ssa.CallCommon, args []Val, where string) Val {
 		s.mutexOp(args[0], true, where)
 		return Val{}
 	}}
-	L["(*sync.Mutex).Unlock"] = &libSpec{fn: func(s *State, c *ssa.CallCommon, args []Val, where string) Val {
+	L["(*sync.Mutex).Unlock"] = &libSpec{ghosts: []string{"$mutexes"}, fn: func(s *State, c *ssa.CallCommon, args []Val, where string) Val {
 		s.mutexOp(args[0], false, where)
 		return Val{}
 	}}
@@ -389,18 +397,57 @@ func (s *State) ghostConst(name string, l Leaf) string {
 }
 
 func (s *State) mutexOp(m Val, lock bool, where string) {
-	// ghost lock state keyed by the textual location of the mutex
-	key := "$locked:" + locKey(m)
-	cur, ok := s.ghost[key]
-	if !ok {
-		cur = mkBool("false")
-	}
+	// ghost lock state: an SMT array from mutex addresses to "held by this goroutine"; a mutex that is a struct field is
+	// addressed by (object reference, field path), one that is a local variable by its own constant
+	addr := s.mutexAddr(m)
+	cur := s.mutexState()
 	if lock {
-		s.ghost[key] = mkBool("true")
+		s.ghost["$mutexes"] = Val{T: tBool, Terms: []string{s.define("locks", arrSort(sInt, sBool), store(cur, addr, "true"))}}
 	} else {
-		s.oblige("assert", "unlock-of-held-mutex", s.defaultProps(), cur.Terms[0], where, "")
-		s.ghost[key] = mkBool("false")
+		s.oblige("assert", "unlock-of-held-mutex", s.defaultProps(), sel(cur, addr), where, "")
+		s.ghost["$mutexes"] = Val{T: tBool, Terms: []string{s.define("locks", arrSort(sInt, sBool), store(cur, addr, "false"))}}
 	}
+}
+
+func (s *State) mutexState() string {
+	if v, ok := s.ghost["$mutexes"]; ok {
+		return v.Terms[0]
+	}
+	// on entry this goroutine holds no mutex
+	return zeroOfSort(arrSort(sInt, sBool))
+}
+
+func (s *State) mutexAddr(m Val) string {
+	if m.Loc == nil {
+		return app("mutex_addr", m.Terms[0], "0")
+	}
+	base := m.Loc.Ref
+	if m.Loc.Cell != nil {
+		name := sym("mutexcell:" + m.Loc.Cell.Name() + ":" + m.Loc.Cell.Comment)
+		decl := fmt.Sprintf("(declare-const %s Int)", name)
+		found := false
+		for _, c := range s.cmds {
+			if c == decl {
+				found = true
+			}
+		}
+		if !found {
+			s.cmds = append(s.cmds, decl)
+		}
+		base = name
+	}
+	addr := base
+	for _, p := range m.Loc.Path {
+		if p.Field >= 0 {
+			addr = app("mutex_addr", addr, fmt.Sprint(p.Field))
+		} else {
+			addr = app("mutex_addr", addr, app("+", "1000", p.Index))
+		}
+	}
+	if len(m.Loc.Path) == 0 {
+		addr = app("mutex_addr", addr, "0")
+	}
+	return addr
 }
 
 func locKey(v Val) string {
